@@ -1008,6 +1008,9 @@ zero(struct func *func, struct value *addr, int align, unsigned long long offset
 	struct value *tmp;
 	int a = 1;
 
+	/* there is no store wider than 8 bytes */
+	if (align > 8)
+		align = 8;
 	while (offset < end) {
 		if ((align - (offset & align - 1)) & a) {
 			tmp = offset ? funcinst(func, IADD, ptrclass, addr, mkintconst(offset)) : addr;
